@@ -47,21 +47,28 @@ Theorem C17_dup_iff n cid m o :
        (fst (receive_message n cid m), List.map out_clear_t (snd (receive_message n cid m)))).
 Proof. exact (@NodeB.C17_dup_iff n cid m o). Qed.
 
-(* C17: sending the answer to a recorded request appends its end-to-end id to the origin's window
-   (and to no other), and forgets the record (and no other); for an unrecorded pair nothing changes *)
-Theorem C17_record n hbh e2e :
-  (forall o, ow_get (n_origin_waiting n) hbh e2e = Some o ->
-     let n' := record_answer n hbh e2e in
+(* (was, before the origin table was keyed by connection:  Theorem C17_record n hbh e2e, with
+   ow_get ... hbh e2e, record_answer n hbh e2e and entries (hbh, e2e, o')) *)
+Theorem C17_record n cid hbh e2e :
+  (forall o, ow_get (n_origin_waiting n) cid hbh e2e = Some o ->
+     let n' := record_answer n cid hbh e2e in
      sa_get (n_sent_answers n') o = bounded_append (g_rsize (n_cfg n)) (sa_get (n_sent_answers n) o) e2e
      /\ (forall o', o' <> o -> sa_get (n_sent_answers n') o' = sa_get (n_sent_answers n) o')
-     /\ ow_get (n_origin_waiting n') hbh e2e = None
-     /\ (forall o', ~ List.In (hbh, e2e, o') (n_origin_waiting n'))
-     /\ (forall h e, (h =? hbh) && (e =? e2e) = false ->
-           ow_get (n_origin_waiting n') h e = ow_get (n_origin_waiting n) h e)
+     /\ ow_get (n_origin_waiting n') cid hbh e2e = None
+     /\ (forall o', ~ List.In (cid, hbh, e2e, o') (n_origin_waiting n'))
+     /\ (forall c h e, same_key cid hbh e2e c h e = false ->
+           ow_get (n_origin_waiting n') c h e = ow_get (n_origin_waiting n) c h e)
      /\ n_cfg n' = n_cfg n /\ n_conns n' = n_conns n /\ n_peers n' = n_peers n /\ n_apps n' = n_apps n
      /\ n_app_waiting n' = n_app_waiting n /\ n_peer_waiting n' = n_peer_waiting n)
-  /\ (ow_get (n_origin_waiting n) hbh e2e = None -> record_answer n hbh e2e = n).
-Proof. exact (@NodeB.C17_record n hbh e2e). Qed.
+  /\ (ow_get (n_origin_waiting n) cid hbh e2e = None -> record_answer n cid hbh e2e = n).
+Proof. exact (@NodeB.C17_record n cid hbh e2e). Qed.
+
+(* C17: in particular the records of OTHER connections carrying the same (hop-by-hop, end-to-end) pair
+   survive the answer (hop-by-hop identifiers are unique per connection only) *)
+Theorem C17_record_other_conn n cid hbh e2e o c :
+  ow_get (n_origin_waiting n) cid hbh e2e = Some o -> c <> cid ->
+  ow_get (n_origin_waiting (record_answer n cid hbh e2e)) c hbh e2e = ow_get (n_origin_waiting n) c hbh e2e.
+Proof. exact (@NodeB.C17_record_other_conn n cid hbh e2e o c). Qed.
 End FromNodeB.
 
 Module FromNodeG.
@@ -142,6 +149,7 @@ Print Assumptions FromNodeB.C17_sa_mem_get.
 Print Assumptions FromNodeB.C17_sa_nodup.
 Print Assumptions FromNodeB.C17_dup_iff.
 Print Assumptions FromNodeB.C17_record.
+Print Assumptions FromNodeB.C17_record_other_conn.
 Print Assumptions FromNodeG.C17_history_window_gen.
 Print Assumptions FromNodeG.C17_history_window.
 Print Assumptions FromNodeG.C17_history_pending.
